@@ -21,7 +21,7 @@ ID = "C12"
 LEVEL = "exploration"
 SHARDS = {"quick": 16, "thorough": 16}
 RULE = (
-    "Token sequences over {IgnoreStart, IgnoreEnd, licence tag, copyright tag, contributor tag, word, "
+    "Token sequences over {IgnoreStart, IgnoreEnd, licence tag, copyright tag, contributor tag, word, prose mentioning 'REUSE-Ignore…', "
     "newline, space}: ALL sequences of length <= 5 (quick) / <= 6 (thorough), plus Hypothesis-generated "
     "sequences up to length 30; each rendered bare and wrapped in '# ', '// ', C block and HTML comment "
     "syntax; a sample is also judged through `reuse lint --json`.  Oracle: extract(text) must equal "
@@ -34,8 +34,9 @@ ASSUMPTIONS = [
     "tag tokens carry unique values, so presence/absence in the result identifies each token",
 ]
 
-S, E, L, C, P, W, N, B = "S", "E", "L", "C", "P", "W", "N", "B"
-ALPHABET = [S, E, L, C, P, W, N, B]
+S, E, L, C, P, W, N, B, R = "S", "E", "L", "C", "P", "W", "N", "B", "R"
+# R: prose that merely mentions the markers' common prefix ("REUSE-IgnoreNextLine"); it is not a marker
+ALPHABET = [S, E, L, C, P, W, N, B, R]
 LIDS = ["MIT", "ISC", "0BSD", "Zlib", "curl", "X11", "WTFPL", "Unlicense", "Beerware", "NTP",
         "MIT-0", "BSL-1.0", "PostgreSQL", "Ruby", "Vim", "W3C", "ZPL-2.1", "xpp", "TCL", "Sendmail",
         "AFL-3.0", "AAL", "Artistic-2.0", "EUPL-1.2", "HPND", "ICU", "IJG", "Info-ZIP", "JSON", "Latex2e"]
@@ -68,6 +69,9 @@ def render(tokens):
         elif t == W:
             parts.append("word")
             vals.append(None)
+        elif t == R:
+            parts.append("REUSE-IgnoreNextLine")
+            vals.append(None)
         elif t == N:
             parts.append("\n")
             vals.append(None)
@@ -99,6 +103,8 @@ def expected_by_construction(tokens, vals):
         k = tags[0]
         if any(t != B for t, _v in line[k + 1:]):
             return None
+        if any(t == R for t, _v in line[:k]) and line[k][0] == L:
+            pass  # prose before a licence tag is part of the prefix: fine
         t, v = line[k]
         (lic if t == L else cop if t == C else con).add(v)
     return lic, cop, con
@@ -207,7 +213,9 @@ def bigfile_case(draw):
     if not segs or segs[-1][0] != "open":
         segs.append(("fill", draw(st.integers(0, 40))))
         segs.append(("tag", k, "lic"))
-    return {"segs": segs, "snippet": draw(st.sampled_from(["top", "top", "bottom", "none"])), "eol": draw(st.sampled_from(["\n", "\n", "\r\n"]))}
+    return {"segs": segs, "snippet": draw(st.sampled_from(["top", "top", "bottom", "none"])), "eol": draw(st.sampled_from(["\n", "\n", "\r\n"])),
+            # an unparseable expression outside every block: the file then contributes nothing at all — in particular nothing from inside a block
+            "bad": draw(st.integers(0, 3)) == 0}
 
 
 def check_bigfile(ctx, c):
@@ -233,6 +241,8 @@ def check_bigfile(ctx, c):
 
     if c["snippet"] == "top":
         lines.append("# SPDX-SnippetBegin")
+    if c.get("bad"):
+        lines.append("# SPDX-License-Identifier: (MIT OR")
     for seg in c["segs"]:
         if seg[0] == "fill":
             lines += ["x" * 62] * seg[1]
@@ -260,6 +270,8 @@ def check_bigfile(ctx, c):
     ref = ref_filter(scanned.decode("utf-8", "replace").replace("\r\n", "\n").replace("\r", "\n"))
     exp_lic = {v for v in vis_lic if f"SPDX-License-Identifier: {v}\n" in ref or ref.endswith(f"SPDX-License-Identifier: {v}")}
     exp_cop = {v for v in vis_cop if v + "\n" in ref or ref.endswith(v)}
+    if c.get("bad"):
+        exp_lic, exp_cop = set(), set()
     if "hidden" in ref.lower():
         from vlib import HarnessError
 
@@ -310,12 +322,12 @@ def run(ctx):
             check_tokens(ctx, tokens, "bare")
             # every sequence also in one comment syntax, chosen by position
             check_tokens(ctx, tokens, wraps[1 + (idx // ctx.nshards) % (len(wraps) - 1)])
-    ctx.extra["exhaustive_subspaces"] = [f"all token sequences of length <= {maxlen} over 8 tokens ({sum(8**k for k in range(maxlen + 1))}), bare and in one comment syntax each"]
+    ctx.extra["exhaustive_subspaces"] = [f"all token sequences of length <= {maxlen} over 9 tokens ({sum(9**k for k in range(maxlen + 1))}), bare and in one comment syntax each"]
     ctx.extra["exhaustive"] = True
 
     tok = st.sampled_from(ALPHABET)
     # weight markers and tags up for the long random sequences
-    heavy = st.sampled_from([S, S, E, E, L, C, P, W, N, N, B])
+    heavy = st.sampled_from([S, S, E, E, L, C, P, W, N, N, B, R])
     strat = st.tuples(
         st.lists(st.one_of(tok, heavy), min_size=6, max_size=30),
         st.sampled_from(wraps),
